@@ -70,6 +70,11 @@ def decoders():
         "readcapacity10": lambda b: ReadCapacity10.unmarshall_datain(b),
         "readcapacity16": lambda b: ReadCapacity16.unmarshall_datain(b),
         "readcd": lambda b: ReadCd.unmarshall_datain(b, lba=0, tl=max(1, len(b) // 3072), est=0, mcsb=0x1E, c2ei=1, scsb=2),
+        # the same decoder the way a caller holding only the buffer calls it: without a transfer length, with rarely used selections
+        "readcd_bare": lambda b: ReadCd.unmarshall_datain(b),
+        "readcd_userdata": lambda b: ReadCd.unmarshall_datain(b, mcsb=0x02),
+        "readcd_rawsub": lambda b: ReadCd.unmarshall_datain(b, scsb=1),
+        "readcd_m2": lambda b: ReadCd.unmarshall_datain(b, lba=3, est=2, mcsb=0x17, c2ei=2, scsb=4),
         "readdiscinfo": lambda b: ReadDiscInformation.unmarshall_datain(b),
         "readelementstatus": lambda b: ReadElementStatus.unmarshall_datain(b),
         "reportluns": lambda b: ReportLuns.unmarshall_datain(b),
